@@ -322,12 +322,53 @@ def twin_counterexample(twin, repo):
             return dict(source='native sweep of boundary candidates over the harness body', crate=spec['crate'], **nat)
     return dict(source='none', native_reproduced=False)
 
+def vlex_search(defn, codegen, repo, budget_s=240):
+    """Verus gives no model.  For a V-lex obligation that failed on definition `defn`, search for a concrete failing input by
+    running the K-lex harness bodies of the same definition natively (real lexer vs specification / relational checks) over
+    all inputs drawn from a small alphabet (the bytes of the definition's harness contexts).  -> counterexample dict | None"""
+    import itertools
+    crate_dir = prepare('lex', repo, tag='-search')
+    idx = full_index(crate_dir)
+    names = sorted(h for h, m in idx.items() if m.get('d') == defn and m.get('kind') in ('spec', 'ctx', 'part') and m.get('sym', 0) <= 3)
+    if not names: return None
+    restrict(crate_dir, names)
+    feats = ('state_machine_codegen',) if codegen == 'state_machine' else ()
+    target = os.path.join(WORK, 'native-target', os.path.basename(crate_dir) + ('-' + '-'.join(feats) if feats else ''))
+    cmd = ['cargo', 'build', '--offline', '--release', '--bin', 'sweep', '--target-dir', target]
+    if feats: cmd += ['--features', ','.join(feats)]
+    p = subprocess.run(cmd, cwd=crate_dir, capture_output=True, text=True, env=_env())
+    if p.returncode != 0: return dict(error='native build failed: ' + p.stderr[-800:])
+    alpha = set()
+    for h in names:
+        c = idx[h].get('ctx')
+        if c: alpha.update(b for b in c.encode('utf-8') if b != ord('?'))
+    for b in (0x20, 0x61, 0x30, 0x0a, 0x80): 
+        if len(alpha) < 10: alpha.add(b)
+    alpha = sorted(alpha)[:12]
+    exe = os.path.join(target, 'release', 'sweep')
+    t0 = time.time()
+    for pre in ('ctx_%s_' % defn, 'part_%s_' % defn, 'spec_%s_' % defn):
+        if time.time() - t0 > budget_s: break
+        try:
+            r = subprocess.run([exe, pre, ''.join('%02x' % b for b in alpha)], cwd=crate_dir, capture_output=True, text=True, timeout=budget_s)
+        except subprocess.TimeoutExpired:
+            continue
+        for line in r.stdout.splitlines():
+            m = re.match(r'FAIL (\S+) input=\[([0-9, ]*)\]', line)
+            if m:
+                vals = [[int(x)] for x in m.group(2).split(',') if x.strip()]
+                rep = native_replay(crate_dir, m.group(1), vals, feats)
+                return dict(harness=m.group(1), input=vals, crate='lex', features=list(feats), native=rep,
+                            native_reproduced=bool(rep.get('native_reproduced')),
+                            source='native search over the K-lex harness bodies of definition %s (alphabet %s); Verus gives no model' % (defn, ' '.join('%02x' % b for b in alpha)))
+    return None
+
 def replay(prop, path, repo):
     d = json.load(open(path))
     cex = d.get('counterexample')
     print('replay of %s: obligation %s' % (path, d.get('obligation')))
     if isinstance(cex, dict) and cex.get('harness'):
-        harness, vals, crate, feats = cex['harness'], cex.get('input'), cex.get('crate', 'src_proofs'), ()
+        harness, vals, crate, feats = cex['harness'], cex.get('input'), cex.get('crate', 'src_proofs'), tuple(cex.get('features', ()))
     elif d.get('harness') and cex:
         harness, vals, crate = d['harness'], cex, d['obligation'].split('[')[0]
         feats = tuple(f for f in (d['obligation'].split('[')[1].split(']')[0]).split('+') if f and f != 'default')
@@ -335,6 +376,7 @@ def replay(prop, path, repo):
         print('no concrete input recorded (no-failing-input-found); verifier output follows:\n%s' % d.get('verifier_output'))
         return 1
     crate_dir = prepare(crate, repo)
+    restrict(crate_dir, [harness])      # the crate may currently hold another selection of harnesses
     rc = 0
     for rel in (False, True):
         exe, err = build_native(crate_dir, feats, rel)
